@@ -106,7 +106,7 @@ struct TreeWorld : World {
         auto putd = [&]() {
             int api = str ? (int)r.below(4) : 0;
             int klass = (api >= 2) ? (r.chance(1, 2) ? 1 : 5) : (int)r.below(6);
-            if (api == 0 && r.chance(1, 12)) klass = 6;
+            if (api == 0 && mode != "threads" && r.chance(1, 12)) klass = 6;     // (the adapter peeks before a value-less put: not atomic, so never in thread programs)
             return api | (klass << 2);
         };
         if (mode == "threads") {
